@@ -295,6 +295,99 @@ def c_query(ctx, args):
     return None
 
 
+def _raw_snap(x):
+    """what a caller can see of a plain argument: type, dtype, shape, values (element types for sequences)"""
+    if isinstance(x, np.ndarray):
+        return ('ndarray', str(x.dtype), x.shape, x.tolist(), bool(x.flags.writeable))
+    if isinstance(x, (list, tuple)):
+        return (type(x).__name__, [_raw_snap(v) for v in x])
+    if isinstance(x, dict):
+        return ('dict', sorted((repr(k), _raw_snap(v)) for k, v in x.items()))
+    return (type(x).__name__, repr(x))
+
+
+def c_plain_args(ctx, args):
+    """PLAIN arguments -- regions, masks, bit strings, index arrays, qubit labels, descriptions -- are read, never written: handed over as the caller's own numpy arrays
+    (int64 / int32 / bool, in ANY order), lists, tuples or dictionaries, they are the same after the call (values, order, dtype, type); the value returned does not depend
+    on the form either"""
+    api, n, seed = args
+    rng = __import__('random').Random(seed)
+    st = NP.STATE(gen.rtableau(rng, ctx.model, n, r=rng.choice([0, None])))
+    l = NP.PL(gen.rplist(rng, n, 4))
+    region = rng.sample(range(n), rng.randint(1, n))                # in the order drawn: not ascending in general
+    calls = []
+    if api == 'entropy':
+        forms = [np.array(region, dtype=np.int64), np.array(region, dtype=np.int32), list(region), tuple(region), np.array([q in region for q in range(n)])]
+        calls = [(a, (lambda a=a: int(st.entropy(a)))) for a in forms]
+    elif api == 'mask':
+        forms = [np.array(region, dtype=np.int64), np.array(region, dtype=np.int32), list(region), tuple(region)]
+        calls = [(a, (lambda a=a: [bool(v) for v in pc.utils.mask(a, n)])) for a in forms]
+    elif api == 'get_prob':
+        st = NP.STATE(gen.rtableau(rng, ctx.model, n, r=0))
+        bits = [rng.randint(0, 1) for _ in range(n)]
+        forms = [np.array(bits, dtype=np.int64), np.array(bits, dtype=np.int32)]
+        calls = [(a, (lambda a=a: round(float(st.get_prob(a)), 9))) for a in forms]
+    elif api == 'getitem':
+        idx = [rng.randrange(4) for _ in range(3)]
+        forms = [np.array(idx, dtype=np.int64), np.array(idx, dtype=np.int32), list(idx)]
+        calls = [(a, (lambda a=a: NP.oPL(l[a]))) for a in forms]
+        mk = [rng.random() < 0.5 for _ in range(4)]
+        calls += [(a, (lambda a=a: NP.oPL(l[a]))) for a in (np.array(mk),)]
+    elif api in ('rotate_mask', 'transform_mask') and n >= 2:
+        k = rng.randint(1, n - 1)
+        mk = gen.rmask(rng, n, k)[0]
+        a = np.array(mk, dtype=bool)
+        if api == 'rotate_mask':
+            g = NP.P(gen.rpauli(rng, k, herm=True, nonzero=True))
+            calls = [(a, (lambda: NP.oPL(l.copy().rotate_by(g, mask=a))))]
+        else:
+            m = NP.CM(gen.rmap(rng, ctx.model, k))
+            calls = [(a, (lambda: NP.oPL(l.copy().transform_by(m, mask=a))))]
+    elif api == 'gate':
+        qs = region[:min(len(region), 2)]
+        arr = np.array(qs, dtype=np.int64)
+        g = gen.rpauli(rng, len(qs), herm=True, nonzero=True)
+
+        def run_gate(labels):
+            gt = pc.circuit.CliffordGate(*labels)
+            gt.generator = NP.P(g)
+            c = pc.circuit.CliffordCircuit(n)
+            c.take(gt)
+            return NP.oPL(c.forward(l.copy()))
+        calls = [(arr, (lambda: run_gate(arr))), (list(qs), (lambda: run_gate(list(qs)))), (tuple(qs), (lambda: run_gate(tuple(qs))))]
+    elif api == 'measure_layer':
+        arr = np.array(region, dtype=np.int64)
+        s0 = NP.STATE(gen.rtableau(rng, ctx.model, n, r=0))
+
+        def run_meas(labels):
+            NP.seed_numba(seed)
+            c = pc.circuit.Circuit(n)
+            c.measure(*labels)
+            s2 = s0.copy()
+            c.forward(s2)
+            return [int(v) for v in c.measure_result], NP.oST(s2)
+        calls = [(arr, (lambda: run_meas(arr))), (list(region), (lambda: run_meas(list(region))))]
+    elif api == 'describe':
+        rows = gen.rplist(rng, n, 3)
+        code = lambda g: [int(a + 2 * b) if (a, b) != (1, 1) else 2 for a, b in zip(g[0::2], g[1::2])]
+        d = [{i: c for i, c in enumerate(code(r[0])) if c} for r in rows]
+        ca = [np.array(code(r[0])) for r in rows]
+        calls = [(d, (lambda: [x[0] for x in NP.oPL(pc.paulis(d, N=n))])), (ca, (lambda: [x[0] for x in NP.oPL(pc.paulis(ca))])),
+                 (ca[0], (lambda: NP.oP(pc.pauli(ca[0]))[0])), (d[0], (lambda: NP.oP(pc.pauli(d[0], N=n))[0]))]
+    vals = []
+    for a, f in calls:
+        before = _raw_snap(a)
+        try:
+            vals.append(f())
+        except Exception as e:
+            return {'kind': 'oracle', 'where': 'np:%s with a %s argument raised %s' % (api, before[0] + ':' + str(before[1])[:12], type(e).__name__), 'observed': str(e)[:150], 'expected': 'a value', 'tags': ['plain_args', api]}
+        if _raw_snap(a) != before:
+            return {'kind': 'oracle', 'where': 'np:%s modified the plain argument it was given' % api, 'observed': str(_raw_snap(a))[:300], 'expected': str(before)[:300], 'tags': ['plain_args', api]}
+    if api in ('entropy', 'mask', 'get_prob', 'gate', 'measure_layer') and any(v != vals[0] for v in vals):
+        return {'kind': 'oracle', 'where': 'np:%s depends on the form its argument is given in' % api, 'observed': str(vals)[:400], 'expected': 'equal values', 'tags': ['plain_args', api]}
+    return None
+
+
 def c_inplace(ctx, args):
     """in-place operations change their receiver only, never their arguments"""
     op, n, seed = args
@@ -510,7 +603,7 @@ def c_empties(ctx, args):
     return None
 
 
-CHECKS = {'empties': c_empties, 'ctor_fresh': c_ctor_fresh, 'copy': c_copy, 'query': c_query, 'inplace': c_inplace, 'torch_copy': c_torch_copy}
+CHECKS = {'plain_args': c_plain_args, 'empties': c_empties, 'ctor_fresh': c_ctor_fresh, 'copy': c_copy, 'query': c_query, 'inplace': c_inplace, 'torch_copy': c_torch_copy}
 
 
 def run(ctx):
@@ -527,6 +620,9 @@ def run(ctx):
         for m in meths:
             for _ in range(max(8, int(10 * B))):
                 do(ctx, 'query', [kind, m, rng.randint(1, 4), rng.randrange(10 ** 6)], nontrivial=('q', kind, m, ctx.res.evaluations))
+    for it in range(int(80 * B)):
+        api = ['entropy', 'mask', 'get_prob', 'getitem', 'rotate_mask', 'transform_mask', 'gate', 'measure_layer', 'describe'][it % 9]
+        do(ctx, 'plain_args', [api, rng.randint(2, 5), rng.randrange(10 ** 6)], nontrivial=('pa', api, it))
     # the rank kernels work in place on whatever they are handed: entropy on larger, mixed and pure states, every block region
     for _ in range(max(30, int(30 * B))):
         do(ctx, 'query', ['StabilizerState', 'entropy', rng.randint(3, 6), rng.randrange(10 ** 6)], nontrivial=('qe', ctx.res.evaluations))
